@@ -35,6 +35,9 @@ var shapes = []shape{
 	{"S8", "type TT struct {\n\ts []Int\n\ta [1]Int\n}", "return TT{[]Int{5}, [1]Int{7}}", "p.a[0] = 99", `if len(v.s) == 0 { return "empty," + itoa(int64(v.a[0])) }; return itoa(int64(v.s[0])) + "," + itoa(int64(v.a[0]))`, "if len(p.s) > 0 { p.s[0] = 55 } else { p.a[0] = -55 }", true},
 	{"A5", "type TT [3]uint8", "return TT{1, 2, 3}", "p[2] = 99", `return itoa(int64(v[0])) + itoa(int64(v[1])) + "," + itoa(int64(v[2]))`, "p[0] = 200", false},
 	{"S9", "type In_S9 struct{ z [2]Int }\ntype TT struct {\n\ti interface{}\n\tn In_S9\n}", `return TT{"s", In_S9{[2]Int{7, 8}}}`, "p.n.z[1] = 99", `str, _ := v.i.(string); return str + itoa(int64(v.n.z[0])) + "," + itoa(int64(v.n.z[1]))`, `p.i = "M"`, false},
+	// the named struct types of the fields are declared AFTER the type that contains them
+	{"S11", "type TT struct {\n\tin  Late_S11\n\tarr [2]Late_S11\n\te   Int\n}\ntype Late_S11 struct {\n\ta Int\n\td Deep_S11\n}\ntype Deep_S11 struct{ z Int }", "return TT{Late_S11{1, Deep_S11{2}}, [2]Late_S11{{3, Deep_S11{4}}, {5, Deep_S11{6}}}, 7}", "p.arr[1].d.z = 99", `return itoa(int64(v.in.a)) + itoa(int64(v.in.d.z)) + "," + itoa(int64(v.arr[0].a)) + itoa(int64(v.arr[1].d.z)) + "," + itoa(int64(v.e))`, "p.in.d.z = 55", false},
+	{"S12", "type TT struct {\n\tEmb_S12\n\tq *Emb_S12\n}\ntype Emb_S12 struct {\n\tm Int\n\tn [2]Int\n}", "return TT{Emb_S12{1, [2]Int{2, 3}}, nil}", "p.n[1] = 99", `return itoa(int64(v.m)) + itoa(int64(v.n[0])) + "," + itoa(int64(v.n[1]))`, "p.m = 55", false},
 	{"A6", "type TT [2]float64", "return TT{1.5, 2.5}", "p[1] = 99", `return ftoa(v[0]) + "," + ftoa(v[1])`, "p[0] = -p[0]", false},
 	{"S10", "type TT struct {\n\tc complex128\n\tu uint64\n\tf func() Int\n}", "return TT{complex(1, 2), 1 << 63, nil}", "p.u = 99", `return ftoa(real(v.c)) + ftoa(imag(v.c)) + "," + utoa(v.u)`, "p.c = complex(9, 9)", true},
 }
